@@ -20,14 +20,20 @@ PROPS = {
     "C01": {
         "level": _L.format(what="shielded send (who-may-call), exhaustive 8x8 acknowledgement-coverage table, ack "
                                 "information applied for DATA/ACK/NAK before dispatch, NAK => NotAcked, plus every "
-                                "receiver rule of C04 and sender rule of C05"),
+                                "receiver rule of C04 and sender rule of C05, the frame layout rules of C03 (a conforming peer must "
+                                "decode what is written) and the reference-receiver stream rule R02.5"),
         "undecided": ["end-to-end exactly-once / in-order delivery against a conforming NCP under loss, corruption, "
                       "duplication and stalls (two interacting state machines; schedules)", "NCP windows 2..3"],
     },
     "C02": {
         "level": _L.format(what="exception-escape analysis of the receive callback, CRC/escape gate dominating "
-                                "delivery, per-reserved-byte buffer edit table, NAK on parse failure, bounded buffer"),
-        "undecided": ["equality with a specification-derived decoder for every stream and every chunking"],
+                                "delivery, per-reserved-byte buffer edit table, NAK on parse failure, bounded buffer, and "
+                                "curated byte streams x chunkings (all two-way splits in the thorough tier, fault variants) "
+                                "pushed through the receive callback and compared event by event with a reference receiver "
+                                "written from the specification"),
+        "undecided": ["equality with the reference decoder for streams and chunkings outside the curated set (the per-byte "
+                      "scanner rule R02.2 covers all streams by induction only for the re-slicing scanner form; other forms are "
+                      "deferred to the curated streams)"],
     },
     "C03": {
         "level": _L.format(what="reserved sets, stuffing/unstuffing transducers over all 256/512 byte cases, "
@@ -54,19 +60,22 @@ PROPS = {
     "C06": {
         "level": _L.format(what="register/advance/send order and atomicity in command(), mod-256 successor over 256 "
                                 "values, single slot on all exits, bounded wait, priority table, reply/callback "
-                                "demultiplexing paths, callback fan-out containment"),
+                                "demultiplexing paths, callback fan-out containment, header reader independent of the "
+                                "frame-control status bits, current-handler resolution also across a restart"),
         "undecided": ["all interleavings of N callers with late/duplicate replies as executed schedules"],
     },
     "C07": {
         "level": _L.format(what="frame-ID injectivity and range in 11 versions (2751 entries), header writer/reader "
                                 "agreement per version, declared-order (de)serialisation, prefix-decodability of "
-                                "every rx schema and struct, every command call site against its version's schema"),
+                                "every rx schema and struct, every command call site against its version's schema, "
+                                "overriding struct decoders transparent on full-length input, no re-implemented primitive codec"),
         "undecided": ["value-level correctness of zigpy's primitive serialize/deserialize"],
     },
     "C08": {
         "level": _L.format(what="empty escape set of EZSP.frame_received; completion only after the frame-ID "
                                 "equality test; callback only on the known-ID, decoded, not-pending path; no stray "
-                                "state writes in the receive path"),
+                                "state writes in the receive path; field decoders raise on truncated input; sequence "
+                                "numbers of stale pending entries"),
         "undecided": ["'commands issued afterwards still complete' as an executed scenario"],
     },
     "C09": {
@@ -92,24 +101,28 @@ PROPS = {
         "undecided": ["concurrent packets against a simulated NCP"],
     },
     "C13": {
-        "level": _L.format(what="field-role agreement of callback unpacking vs the rx schema in 11 versions, packet "
-                                "construction table over all message types, join/leave triage table"),
+        "level": _L.format(what="field-role agreement of callback unpacking vs the rx schema in 11 versions (also after a "
+                                "reconnect across the v14 field-order boundary), dispatch names present in every version's "
+                                "table, packet construction table over all message types with known and unknown senders, "
+                                "join/leave triage table"),
         "undecided": ["byte-level decoding (zigpy codecs)"],
     },
     "C14": {
         "level": _L.format(what="every accessor against its version's schemas, restore/read-back field pairs, "
-                                "security-state flag table, key-struct flag triples, restore order"),
+                                "security-state flag table, key-struct flag triples, restore order, frame counters written "
+                                "for every value incl. 0, link-key read-back over a table with gaps, bring-up listener order"),
         "undecided": ["the NCP's stored state; a round trip through a stateful peer"],
     },
     "C15": {
         "level": _L.format(what="slot pairing on every exit of subscribe (incl. exceptions/cancellation), no-write "
-                                "cases, entry contents, unsubscribe release, scan partition, confined writers"),
+                                "cases, entry contents, unsubscribe release, scan partition, confined writers, index claimed "
+                                "before the awaited table write, host mirror preserved over start-up"),
         "undecided": ["mirror relation against a simulated NCP over operation sequences"],
     },
     "C16": {
         "level": _L.format(what="resolved DEFAULT_CONFIG and schemas of 11 versions, merge over Python's dict-order "
                                 "rules for abstract override sets, skip/write decision table, grow-only coverage, "
-                                "buffer count last, continue on reject"),
+                                "buffer count last, continue on reject, default tables never mutated at run time"),
         "undecided": ["nothing beyond the NCP honouring accepted writes"],
     },
     "C17": {
@@ -120,17 +133,20 @@ PROPS = {
     "C18": {
         "exhaustive": True,  # both 8-bit families completely, every unified member
         "level": _L.format(what="resolved status enums and SL_STATUS_MAP, shape of from_ember_status, exhaustive "
-                                "evaluation over all 256 values of both 8-bit families and all unified members"),
+                                "evaluation over all 256 values of both 8-bit families and all unified members, each "
+                                "conversion repeated (no dependence on earlier conversions)"),
         "undecided": [],
     },
     "C19": {
         "level": _L.format(what="all paths of _watchdog_feed over keep-alive outcomes, counter values 0..MAX+3, "
-                                "version {4, other} and the clear period; confined writers of the counters"),
+                                "version {4, other} and the clear period; confined writers of the counters; a command after "
+                                "the stack was stopped raises the error the feed counts"),
         "undecided": [],
     },
     "C20": {
-        "level": _L.format(what="dispatch table of ThreadsafeProxy.__getattr__ over 16 predicate combinations; "
-                                "wiring of the two proxies in uart.connect"),
+        "level": _L.format(what="dispatch table of ThreadsafeProxy.__getattr__ over 20 predicate combinations (incl. the "
+                                "wrapped method raising, scheduling on a closed loop raising); the queued callback and the "
+                                "stop sequence of the loop thread executed abstractly; wiring of the two proxies in uart.connect"),
         "undecided": ["real threads, bursts, a loop closing underneath a caller"],
     },
 }
